@@ -43,6 +43,14 @@ CHECKS = {
   "Bounded-exhaustive: every string within edit distance 1 (quick) / 2 (thorough) of 14 seed date-times over the 16-symbol date-time alphabet plus complete field sweeps is given to Datetime::from_str, Value::from_str, the document parser and the specification model, which must agree on acceptance and on every field; printed forms must be accepted by all and parse back; every Datetime over a lattice of in-range fields (87 K values) must print to text every parser reads back, also through the API and serde.",
   "Trusts refmodel's reading of RFC 3339 as restricted by TOML 1.0.0.",
   "exhaustive enumeration of an edit neighbourhood and a field lattice; four-way agreement oracle"),
+ "C04": ("exploration", "proc", "5/C04",
+  "Bounded exploration of a universally quantified safety claim: every input of the byte / token / context / number / date-time / corpus / decor universes and a growth family (units repeated up to 1024-16384 times in 8 frames, run in sacrificial worker processes) is given to 12 entry points and everything returned is printed, debug-printed, cloned, dropped, re-parsed, despanned and re-serialized in a build with debug assertions and overflow checks; no panic, no worker death, wall time within a linear budget, hard watchdog.",
+  "The property holds for all inputs only as far as the bounded universes reach; silent out-of-bounds reads would need a memory checker (the checked from_utf8 branch and slice indexing turn reachable ones into panics in this build).",
+  "exhaustive enumeration of bounded input universes on all entry points under catch_unwind, process isolation and a watchdog"),
+ "C05": ("exploration", "proc", "5/C05",
+  "Every combination of header kind x depth, dotted-key depth and up to 2-3 value constructs x depth over a depth set around the limit (1, 2, 39, 40, 78-81, 200, 3000) is parsed, printed, debug-printed, cloned, dropped, despanned and deserialized on a 2 MiB thread inside a sacrificial process, in an opt-level-0 build and a release build; the worker must survive, rejection must be the recursion-limit error, accepted trees are at most K = 160 deep, single constructs are accepted below 80 and rejected from 80.",
+  "K = 160 (one header path plus one counted nest) is this check's reading of 'a small constant'; the claim over all inputs is decided for the enumerated construct combinations only.",
+  "exhaustive enumeration of nesting-construct combinations around the limit; process-isolated bounded-stack execution"),
 }
 
 NOT_YET = {}
